@@ -53,6 +53,7 @@ type Run struct {
 	Notes    []string
 	Analysed map[string]any
 	curRule  string
+	IdxSites map[string]bool // file:line of every E-IDX obligation of this run
 }
 
 func (r *Run) ob(rule, construct string, pos token.Pos, v Verdict, trivial bool, detail string) *Ob {
